@@ -42,6 +42,23 @@ fn uri_of(v: &Value) -> Result<http::Uri, String> {
     s(v).parse::<http::Uri>().map_err(|e| e.to_string())
 }
 
+thread_local! {
+    static REACHED: std::cell::Cell<bool> = const { std::cell::Cell::new(false) };
+}
+
+#[derive(Default, Debug)]
+struct Recorder;
+
+impl c2pa::http::SyncHttpResolver for Recorder {
+    fn http_resolve(
+        &self,
+        _request: http::Request<Vec<u8>>,
+    ) -> Result<http::Response<Box<dyn std::io::Read>>, c2pa::http::HttpResolverError> {
+        REACHED.with(|c| c.set(true));
+        Ok(http::Response::new(Box::new(std::io::empty()) as Box<dyn std::io::Read>))
+    }
+}
+
 fn call(f: &str, a: &[Value]) -> Value {
     match f {
         "to_manifest_uri" => json!(lh::to_manifest_uri(s(&a[0]))),
@@ -85,10 +102,38 @@ fn call(f: &str, a: &[Value]) -> Value {
             Ok(u) => json!({"host": u.host(), "result": rh::host_is_non_global(&u)}),
             Err(e) => json!({"uri_error": e}),
         },
+        "host_is_non_global_bool" => match uri_of(&a[0]) {
+            Ok(u) => json!(rh::host_is_non_global(&u)),
+            Err(e) => json!({"uri_error": e}),
+        },
         // HostPattern::new(pattern).matches(uri)
         "host_pattern_matches" => match uri_of(&a[1]) {
             Ok(u) => json!({"host": u.host(), "port": u.port().map(|p| p.as_str().to_owned()), "scheme": u.scheme_str(),
                             "result": HostPattern::new(s(&a[0])).matches(&u)}),
+            Err(e) => json!({"uri_error": e}),
+        },
+        // composite used by differential validation: HostPattern::new(p).matches(uri) -> bool
+        "pattern_matches_bool" => match uri_of(&a[1]) {
+            Ok(u) => json!(HostPattern::new(s(&a[0])).matches(&u)),
+            Err(e) => json!({"uri_error": e}),
+        },
+        "host_pattern_new_identity" => json!({"pattern": s(&a[0])}),
+        "host_pattern_matches_result" => match uri_of(&a[1]) {
+            Ok(u) => json!(HostPattern::new(s(&a[0])).matches(&u)),
+            Err(e) => json!({"uri_error": e}),
+        },
+        // RestrictedResolver over a recording transport: args = [patterns | null, uri]
+        "restricted_resolver_reached" => match uri_of(&a[1]) {
+            Ok(u) => {
+                let inner = Recorder::default();
+                let mut r = c2pa::http::restricted::RestrictedResolver::new(inner);
+                if let Some(ps) = a[0].as_array() {
+                    r.set_allowed_hosts(Some(ps.iter().map(|p| HostPattern::new(s(p))).collect()));
+                }
+                let req = http::Request::get(u).body(Vec::new()).unwrap();
+                let res = c2pa::http::SyncHttpResolver::http_resolve(&r, req);
+                json!({"reached": REACHED.with(|c| c.replace(false)), "err": res.is_err()})
+            }
             Err(e) => json!({"uri_error": e}),
         },
         "is_uri_allowed" => match uri_of(&a[1]) {
